@@ -1,8 +1,8 @@
 /-
   "A connection awaiting a DWA carries a valid DWR stamp": the invariant
-  `WInv s` — the clock is positive, and every connection in state
+  `WdInv s` — the clock is positive, and every connection in state
   READY_WAITING_DWA has `0 < lastDwr ≤ now` — is kept by every function of the
-  node (one lemma per function, `WInv s → WInv (f s)`; the second half of this
+  node (one lemma per function, `WdInv s → WdInv (f s)`; the second half of this
   file is the text of Proofs/NodeSound.lean with the relation replaced).
   The state is entered in `send_dwr` only, which stamps the connection in the
   same step; the stamp is cleared by `reset_last_dwa` only, which leaves the state.
@@ -13,17 +13,17 @@ namespace DV.Node
 
 def Conn.wOk (now : Nat) (c : Conn) : Prop := c.state = .waitDwa → 0 < c.lastDwr ∧ c.lastDwr ≤ now
 
-def WInv (s : St) : Prop := 0 < s.now ∧ ∀ c ∈ s.conns, c.wOk s.now
+def WdInv (s : St) : Prop := 0 < s.now ∧ ∀ c ∈ s.conns, c.wOk s.now
 
-theorem w_of_conns {s' s : St} (h2 : s'.conns = s.conns) (h3 : s'.now = s.now) (h : WInv s) : WInv s' := by
-  unfold WInv at *
+theorem w_of_conns {s' s : St} (h2 : s'.conns = s.conns) (h3 : s'.now = s.now) (h : WdInv s) : WdInv s' := by
+  unfold WdInv at *
   rw [h2, h3]; exact h
 
 /-- a literal state whose `conns` and `now` are those of `s'` -/
 theorem w_mk' (s' : St) {cfg peers apps routes connections peerSockets socketPeers halfReady appWaiting peerWaiting
     originWaiting sentAnswers e2e nextHbhSeed stopping started pipe dialPlan appRequests delivered inProgress tapps
-    deferred crashed outs} (h : WInv s') :
-    WInv (St.mk cfg s'.now peers apps routes s'.conns connections peerSockets socketPeers halfReady appWaiting peerWaiting
+    deferred crashed outs} (h : WdInv s') :
+    WdInv (St.mk cfg s'.now peers apps routes s'.conns connections peerSockets socketPeers halfReady appWaiting peerWaiting
       originWaiting sentAnswers e2e nextHbhSeed stopping started pipe dialPlan appRequests delivered inProgress tapps
       deferred crashed outs) := h
 
@@ -31,16 +31,16 @@ open Lean Elab Tactic Meta in
 elab "guard_st_literal_w" : tactic => do
   let g ← instantiateMVars (← getMainTarget)
   match g.getAppFnArgs with
-  | (``DV.Node.WInv, #[st]) => unless st.isAppOf ``DV.Node.St.mk do throwError "not a literal state"
-  | _ => throwError "not a goal of the form WInv _"
+  | (``DV.Node.WdInv, #[st]) => unless st.isAppOf ``DV.Node.St.mk do throwError "not a literal state"
+  | _ => throwError "not a goal of the form WdInv _"
 
 macro "w_hyp" : tactic => `(tactic| with_reducible assumption)
 macro "w_lit" : tactic => `(tactic| (guard_st_literal_w; with_reducible apply w_mk'))
 
 /-! ### connection updates -/
 
-theorem w_modConn (s : St) (i : Nat) (f : Conn → Conn) (hf : ∀ c, c.wOk s.now → (f c).wOk s.now) (h : WInv s) :
-    WInv (s.modConn i f) := by
+theorem w_modConn (s : St) (i : Nat) (f : Conn → Conn) (hf : ∀ c, c.wOk s.now → (f c).wOk s.now) (h : WdInv s) :
+    WdInv (s.modConn i f) := by
   refine ⟨h.1, ?_⟩
   intro c' hc'
   simp only [St.modConn, List.mem_map] at hc'
@@ -53,18 +53,18 @@ theorem w_modConn (s : St) (i : Nat) (f : Conn → Conn) (hf : ∀ c, c.wOk s.no
 /-- discharges the side condition of `w_modConn` for a literal record update -/
 macro "tamew" : tactic => `(tactic| (intro c hc; unfold Conn.wOk at hc ⊢; dsimp only; intro hst; first | exact hc hst | (exfalso; revert hst; cases c.state <;> simp [CState.isReady])))
 
-theorem w_connClose (s : St) (cid : Nat) (b : Bool) (h : WInv s) : WInv (connClose s cid b) := by
+theorem w_connClose (s : St) (cid : Nat) (b : Bool) (h : WdInv s) : WdInv (connClose s cid b) := by
   unfold connClose
   split
   · exact w_of_conns rfl rfl (w_modConn _ _ _ (by tamew) h)
   · exact w_modConn _ _ _ (by tamew) h
 
-theorem w_modTApp (s : St) (i : Nat) (f : TApp → TApp) (h : WInv s) : WInv (s.modTApp i f) := h
-theorem w_modApp (s : St) (i : Nat) (f : App → App) (h : WInv s) : WInv (s.modApp i f) := h
-theorem w_modPeer (s : St) (i : Nat) (f : Peer → Peer) (h : WInv s) : WInv (s.modPeer i f) := h
-theorem w_emit (s : St) (o : Out) (h : WInv s) : WInv (s.emit o) := h
-theorem w_demand (s : St) (c : Nat) (h : WInv s) : WInv (demandAttention s c) := h
-theorem w_setCrashed (s : St) (n : Nat) (h : WInv s) : WInv ({ s with crashed := n } : St) := h
+theorem w_modTApp (s : St) (i : Nat) (f : TApp → TApp) (h : WdInv s) : WdInv (s.modTApp i f) := h
+theorem w_modApp (s : St) (i : Nat) (f : App → App) (h : WdInv s) : WdInv (s.modApp i f) := h
+theorem w_modPeer (s : St) (i : Nat) (f : Peer → Peer) (h : WdInv s) : WdInv (s.modPeer i f) := h
+theorem w_emit (s : St) (o : Out) (h : WdInv s) : WdInv (s.emit o) := h
+theorem w_demand (s : St) (c : Nat) (h : WdInv s) : WdInv (demandAttention s c) := h
+theorem w_setCrashed (s : St) (n : Nat) (h : WdInv s) : WdInv ({ s with crashed := n } : St) := h
 
 macro "w_triv" : tactic => `(tactic| first
   | with_reducible apply w_modTApp | with_reducible apply w_modApp | with_reducible apply w_modPeer
@@ -78,22 +78,22 @@ theorem removePeerConnection_now (s : St) (cid : Nat) (r : Reason) : (removePeer
     simp only []
     repeat (first | rfl | split)
 
-theorem w_removePeerConnection (s : St) (cid : Nat) (r : Reason) (h : WInv s) : WInv (removePeerConnection s cid r) :=
+theorem w_removePeerConnection (s : St) (cid : Nat) (r : Reason) (h : WdInv s) : WdInv (removePeerConnection s cid r) :=
   w_of_conns (removePeerConnection_conns s cid r) (removePeerConnection_now s cid r) h
 
-theorem w_closeConnectionSocket (s : St) (cid : Nat) (r : Reason) (h : WInv s) : WInv (closeConnectionSocket s cid r) := by
+theorem w_closeConnectionSocket (s : St) (cid : Nat) (r : Reason) (h : WdInv s) : WdInv (closeConnectionSocket s cid r) := by
   unfold closeConnectionSocket
   apply w_removePeerConnection
   split
   · exact w_connClose _ _ _ (w_modConn _ _ _ (by tamew) h)
   · exact h
 
-theorem w_recordAnswerState (s : St) (cid : Nat) (m : AMsg) (h : WInv s) : WInv (recordAnswerState s cid m) := by
+theorem w_recordAnswerState (s : St) (cid : Nat) (m : AMsg) (h : WdInv s) : WdInv (recordAnswerState s cid m) := by
   refine w_of_conns ?_ ?_ h
   · unfold recordAnswerState; repeat (first | rfl | split | dsimp only)
   · unfold recordAnswerState; repeat (first | rfl | split | dsimp only)
 
-theorem w_sendMessage (s : St) (cid : Nat) (m : AMsg) (b : Bool) (h : WInv s) : WInv (sendMessage s cid m b).1 := by
+theorem w_sendMessage (s : St) (cid : Nat) (m : AMsg) (b : Bool) (h : WdInv s) : WdInv (sendMessage s cid m b).1 := by
   unfold sendMessage
   split
   · exact h
@@ -104,21 +104,21 @@ theorem w_sendMessage (s : St) (cid : Nat) (m : AMsg) (b : Bool) (h : WInv s) : 
       exact w_of_conns rfl rfl h
     · exact w_modConn _ _ _ (by tamew) h
 
-theorem w_foldl {α : Type} (f : St → α → St) (hf : ∀ s a, WInv s → WInv (f s a)) (l : List α) (s : St) (h : WInv s) :
-    WInv (l.foldl f s) := by
+theorem w_foldl {α : Type} (f : St → α → St) (hf : ∀ s a, WdInv s → WdInv (f s a)) (l : List α) (s : St) (h : WdInv s) :
+    WdInv (l.foldl f s) := by
   induction l generalizing s with
   | nil => exact h
   | cons a l ih => exact ih _ (hf s a h)
 
-theorem w_foldlW {α : Type} (f : World → α → World) (hf : ∀ w a, WInv w.st → WInv (f w a).st) (l : List α) (w : World)
-    (h : WInv w.st) : WInv (l.foldl f w).st := by
+theorem w_foldlW {α : Type} (f : World → α → World) (hf : ∀ w a, WdInv w.st → WdInv (f w a).st) (l : List α) (w : World)
+    (h : WdInv w.st) : WdInv (l.foldl f w).st := by
   induction l generalizing w with
   | nil => exact h
   | cons a l ih => exact ih _ (hf w a h)
 
 /-- a new connection object is not awaiting a DWA -/
-theorem w_addPeerConnection (s : St) (c : Conn) (hq : c.state ≠ .waitDwa) (h : WInv s) : WInv (addPeerConnection s c).1 := by
-  have h1 : WInv ({ s with conns := s.conns ++ [c] } : St) := by
+theorem w_addPeerConnection (s : St) (c : Conn) (hq : c.state ≠ .waitDwa) (h : WdInv s) : WdInv (addPeerConnection s c).1 := by
+  have h1 : WdInv ({ s with conns := s.conns ++ [c] } : St) := by
     refine ⟨h.1, ?_⟩
     intro c' hc'
     rcases List.mem_append.mp hc' with hc' | hc'
@@ -130,13 +130,13 @@ theorem w_addPeerConnection (s : St) (c : Conn) (hq : c.state ≠ .waitDwa) (h :
   dsimp only
   repeat (first | w_hyp | w_triv | split | dsimp only | with_reducible apply w_modConn _ _ _ (by tamew) | ((with_reducible apply w_mk' { s with conns := s.conns ++ [c] }); exact h1))
 
-theorem w_routeAnswer (s s' : St) (m : AMsg) (cid : Nat) (hr : routeAnswer s m = .ok (s', cid)) (h : WInv s) : WInv s' := by
+theorem w_routeAnswer (s s' : St) (m : AMsg) (cid : Nat) (hr : routeAnswer s m = .ok (s', cid)) (h : WdInv s) : WdInv s' := by
   unfold routeAnswer at hr
   simp only [] at hr
   repeat (first | contradiction | split at hr)
   all_goals (first | contradiction | (injection hr with hr; injection hr with h1 h2; subst h1; exact w_of_conns rfl rfl h))
 
-theorem w_routeAnswerSideEffect (s : St) (m : AMsg) (h : WInv s) : WInv (routeAnswerSideEffect s m) := by
+theorem w_routeAnswerSideEffect (s : St) (m : AMsg) (h : WdInv s) : WdInv (routeAnswerSideEffect s m) := by
   unfold routeAnswerSideEffect
   split
   · exact h
@@ -156,16 +156,16 @@ macro "w_tac" : tactic => `(tactic| repeat (first
   | with_reducible apply w_recordAnswerState
   | with_reducible apply w_sendMessage))
 
-theorem w_assignPeerConnection (s : St) (cid : Nat) (h : WInv (s)) : WInv (assignPeerConnection s cid) := by
+theorem w_assignPeerConnection (s : St) (cid : Nat) (h : WdInv (s)) : WdInv (assignPeerConnection s cid) := by
   unfold assignPeerConnection; w_tac
 
-theorem w_flagReady (s : St) (cid : Nat) (h : WInv (s)) : WInv (flagConnectionAsReady s cid) := by
+theorem w_flagReady (s : St) (cid : Nat) (h : WdInv (s)) : WdInv (flagConnectionAsReady s cid) := by
   unfold flagConnectionAsReady
   exact w_of_conns rfl rfl (w_modConn _ _ _ (by tamew) h)
 
-theorem w_cerNameAndElect (s : St) (cid : Nat) (hn : String) (h : WInv (s)) : WInv ((cerNameAndElect s cid hn).1) := by
+theorem w_cerNameAndElect (s : St) (cid : Nat) (hn : String) (h : WdInv (s)) : WdInv ((cerNameAndElect s cid hn).1) := by
   unfold cerNameAndElect
-  have hf : ∀ (l : List Conn) (s : St), WInv s → WInv (l.foldl (fun s o => connClose s o.id true) s) :=
+  have hf : ∀ (l : List Conn) (s : St), WdInv s → WdInv (l.foldl (fun s o => connClose s o.id true) s) :=
     fun l s hs => w_foldl _ (fun s a hs => w_connClose s a.id true hs) l s hs
   dsimp only
   repeat (first | w_hyp | w_triv | w_lit | split | with_reducible apply hf | with_reducible apply w_modConn _ _ _ (by tamew))
@@ -186,47 +186,47 @@ macro "w_tac2" : tactic => `(tactic| repeat (first
   | with_reducible apply w_flagReady
   | with_reducible apply w_cerNameAndElect))
 
-theorem w_receiveCer (s : St) (cid : Nat) (m : AMsg) (info : MsgInfo) (h : WInv (s)) : WInv ((receiveCer s cid m info).1) := by
+theorem w_receiveCer (s : St) (cid : Nat) (m : AMsg) (info : MsgInfo) (h : WdInv (s)) : WdInv ((receiveCer s cid m info).1) := by
   unfold receiveCer; w_tac2
 
-theorem w_receiveCea (s : St) (cid : Nat) (m : AMsg) (h : WInv (s)) : WInv ((receiveCea s cid m).1) := by
+theorem w_receiveCea (s : St) (cid : Nat) (m : AMsg) (h : WdInv (s)) : WdInv ((receiveCea s cid m).1) := by
   unfold receiveCea; w_tac2
 
-theorem w_receiveDpr (s : St) (cid : Nat) (m : AMsg) (info : MsgInfo) (h : WInv (s)) : WInv ((receiveDpr s cid m info).1) := by
+theorem w_receiveDpr (s : St) (cid : Nat) (m : AMsg) (info : MsgInfo) (h : WdInv (s)) : WdInv ((receiveDpr s cid m info).1) := by
   unfold receiveDpr; w_tac2
 
-theorem w_receiveDpa (s : St) (cid : Nat) (h : WInv (s)) : WInv (receiveDpa s cid) := by
+theorem w_receiveDpa (s : St) (cid : Nat) (h : WdInv (s)) : WdInv (receiveDpa s cid) := by
   unfold receiveDpa; w_tac2
 
-theorem w_receiveDwa (s : St) (cid : Nat) (h : WInv (s)) : WInv (receiveDwa s cid) := by
+theorem w_receiveDwa (s : St) (cid : Nat) (h : WdInv (s)) : WdInv (receiveDwa s cid) := by
   unfold receiveDwa; w_tac2
 
-theorem w_receiveDwr (s : St) (cid : Nat) (m : AMsg) (info : MsgInfo) (h : WInv (s)) : WInv ((receiveDwr s cid m info).1) := by
+theorem w_receiveDwr (s : St) (cid : Nat) (m : AMsg) (info : MsgInfo) (h : WdInv (s)) : WdInv ((receiveDwr s cid m info).1) := by
   unfold receiveDwr; w_tac2
 
-theorem w_appReceiveRequest (s : St) (ai : Nat) (m : AMsg) (h : WInv (s)) : WInv ((appReceiveRequest s ai m).1) := by
+theorem w_appReceiveRequest (s : St) (ai : Nat) (m : AMsg) (h : WdInv (s)) : WdInv ((appReceiveRequest s ai m).1) := by
   unfold appReceiveRequest; w_tac2
 
-theorem w_appReceiveAnswer (s : St) (ai : Nat) (m : AMsg) (h : WInv (s)) : WInv (appReceiveAnswer s ai m) := by
+theorem w_appReceiveAnswer (s : St) (ai : Nat) (m : AMsg) (h : WdInv (s)) : WdInv (appReceiveAnswer s ai m) := by
   unfold appReceiveAnswer; w_tac2
 
-theorem w_receiveAppAnswer (s : St) (m : AMsg) (h : WInv (s)) : WInv (receiveAppAnswer s m) := by
+theorem w_receiveAppAnswer (s : St) (m : AMsg) (h : WdInv (s)) : WdInv (receiveAppAnswer s m) := by
   unfold receiveAppAnswer
   repeat (first | w_hyp | w_triv | w_lit | split | with_reducible apply w_appReceiveAnswer)
 
-theorem w_recordOrigin (s : St) (cid : Nat) (m : AMsg) (info : MsgInfo) (h : WInv (s)) : WInv (recordOrigin s cid m info) := by
+theorem w_recordOrigin (s : St) (cid : Nat) (m : AMsg) (info : MsgInfo) (h : WdInv (s)) : WdInv (recordOrigin s cid m info) := by
   unfold recordOrigin; w_tac2
 
-theorem w_crashReader (s : St) (cid : Nat) (e : String) (h : WInv (s)) : WInv (crashReader s cid e) := by
+theorem w_crashReader (s : St) (cid : Nat) (e : String) (h : WdInv (s)) : WdInv (crashReader s cid e) := by
   unfold crashReader
   exact w_of_conns rfl rfl (w_modConn _ _ _ (by tamew) (w_of_conns rfl rfl h))
 
-theorem w_sendCer (s : St) (cid : Nat) (h : WInv (s)) : WInv (sendCer s cid) := by
+theorem w_sendCer (s : St) (cid : Nat) (h : WdInv (s)) : WdInv (sendCer s cid) := by
   unfold sendCer; w_tac2
 
 /-- the update `send_dwr` ends with: state and stamp are set together -/
-theorem w_modConn_stamp (s : St) (i : Nat) (h : WInv s) :
-    WInv (s.modConn i fun x => { x with state := if x.state.isReady then .waitDwa else x.state, lastDwr := s.now }) := by
+theorem w_modConn_stamp (s : St) (i : Nat) (h : WdInv s) :
+    WdInv (s.modConn i fun x => { x with state := if x.state.isReady then .waitDwa else x.state, lastDwr := s.now }) := by
   apply w_modConn _ _ _ _ h
   intro c hc
   unfold Conn.wOk
@@ -234,7 +234,7 @@ theorem w_modConn_stamp (s : St) (i : Nat) (h : WInv s) :
   intro _
   exact ⟨h.1, Nat.le_refl _⟩
 
-theorem w_sendDwr (s : St) (cid : Nat) (h : WInv s) : WInv (sendDwr s cid) := by
+theorem w_sendDwr (s : St) (cid : Nat) (h : WdInv s) : WdInv (sendDwr s cid) := by
   unfold sendDwr
   split
   · exact h
@@ -244,7 +244,7 @@ theorem w_sendDwr (s : St) (cid : Nat) (h : WInv s) : WInv (sendDwr s cid) := by
     apply w_modConn _ _ _ (by tamew)
     exact w_of_conns rfl rfl h
 
-theorem w_sendDpr (s : St) (cid : Nat) (h : WInv (s)) : WInv (sendDpr s cid) := by
+theorem w_sendDpr (s : St) (cid : Nat) (h : WdInv (s)) : WdInv (sendDpr s cid) := by
   unfold sendDpr; w_tac2
 
 macro "w_tac3" : tactic => `(tactic| repeat (first
@@ -263,10 +263,10 @@ macro "w_tac3" : tactic => `(tactic| repeat (first
   | with_reducible apply w_sendDwr
   | with_reducible apply w_sendDpr))
 
-theorem w_checkTimers (s : St) (cid : Nat) (h : WInv (s)) : WInv (checkTimers s cid) := by
+theorem w_checkTimers (s : St) (cid : Nat) (h : WdInv (s)) : WdInv (checkTimers s cid) := by
   unfold checkTimers; w_tac3
 
-theorem w_connectToPeer (s : St) (pi : Nat) (h : WInv (s)) : WInv (connectToPeer s pi) := by
+theorem w_connectToPeer (s : St) (pi : Nat) (h : WdInv (s)) : WdInv (connectToPeer s pi) := by
   unfold connectToPeer
   repeat (first
     | w_hyp
@@ -280,30 +280,30 @@ theorem w_connectToPeer (s : St) (pi : Nat) (h : WInv (s)) : WInv (connectToPeer
     | with_reducible apply w_sendCer
     | apply w_addPeerConnection _ _ (by intro hh; cases hh))
 
-theorem w_reconnectStep (s : St) (pi : Nat) (h : WInv (s)) : WInv (reconnectStep s pi) := by
+theorem w_reconnectStep (s : St) (pi : Nat) (h : WdInv (s)) : WdInv (reconnectStep s pi) := by
   unfold reconnectStep
   repeat (first | w_hyp | w_triv | w_lit | split | with_reducible apply w_connectToPeer)
 
-theorem w_reconnectPeers (s : St) (h : WInv (s)) : WInv (reconnectPeers s) := by
+theorem w_reconnectPeers (s : St) (h : WdInv (s)) : WdInv (reconnectPeers s) := by
   unfold reconnectPeers
   split
   · exact h
   · exact w_foldl _ (fun s a hs => w_reconnectStep s a hs) _ _ h
 
-theorem w_handleInterrupt (s : St) (h : WInv (s)) : WInv (handleInterrupt s) := by
+theorem w_handleInterrupt (s : St) (h : WdInv (s)) : WdInv (handleInterrupt s) := by
   unfold handleInterrupt; w_tac3
 
-theorem w_handleAccept (s : St) (h : WInv (s)) : WInv (handleAccept s) := by
+theorem w_handleAccept (s : St) (h : WdInv (s)) : WdInv (handleAccept s) := by
   unfold handleAccept
   dsimp only
   exact w_addPeerConnection _ _ (by intro hh; cases hh) (w_of_conns rfl rfl h)
 
-theorem w_connectResult (w : World) (cid : Nat) (c : Conn) (h : WInv (w.st)) : WInv ((connectResult w cid c).1.st) := by
+theorem w_connectResult (w : World) (cid : Nat) (c : Conn) (h : WdInv (w.st)) : WdInv ((connectResult w cid c).1.st) := by
   unfold connectResult; w_tac3
 
-theorem w_flushWritable (w : World) (cid : Nat) (h : WInv (w.st)) : WInv ((flushWritable w cid).st) := by
+theorem w_flushWritable (w : World) (cid : Nat) (h : WdInv (w.st)) : WdInv ((flushWritable w cid).st) := by
   unfold flushWritable
-  have hf : ∀ (l : List AMsg) (s : St), WInv s → WInv (l.foldl (fun s m => s.emit (.wrote cid m)) s) :=
+  have hf : ∀ (l : List AMsg) (s : St), WdInv s → WdInv (l.foldl (fun s m => s.emit (.wrote cid m)) s) :=
     fun l s hs => w_foldl (fun s m => s.emit (.wrote cid m)) (fun s a hs => hs) l s hs
   repeat (first
     | w_hyp
@@ -317,17 +317,17 @@ theorem w_flushWritable (w : World) (cid : Nat) (h : WInv (w.st)) : WInv ((flush
     | with_reducible apply w_closeConnectionSocket
     | with_reducible apply hf)
 
-theorem w_handleWritable (w : World) (cid : Nat) (h : WInv (w.st)) : WInv ((handleWritable w cid).st) := by
+theorem w_handleWritable (w : World) (cid : Nat) (h : WdInv (w.st)) : WdInv ((handleWritable w cid).st) := by
   unfold handleWritable
   repeat (first | w_hyp | w_triv | w_lit | split | dsimp only | with_reducible apply w_flushWritable | with_reducible apply w_connectResult)
 
-theorem w_pumpWriter (s : St) (cid : Nat) (h : WInv (s)) : WInv (pumpWriter s cid) := by
+theorem w_pumpWriter (s : St) (cid : Nat) (h : WdInv (s)) : WdInv (pumpWriter s cid) := by
   unfold pumpWriter
   repeat (first | w_hyp | w_triv | w_lit | split | (apply w_foldl; intro s a hs; exact w_of_conns rfl rfl (w_modConn _ _ _ (by tamew) hs)))
 
 /-! ### applications -/
 
-theorem w_sendBuiltAnswer (s : St) (a : AMsg) (t : Bool) (h : WInv (s)) : WInv ((sendBuiltAnswer s a t).1) := by
+theorem w_sendBuiltAnswer (s : St) (a : AMsg) (t : Bool) (h : WdInv (s)) : WdInv ((sendBuiltAnswer s a t).1) := by
   unfold sendBuiltAnswer
   split
   · exact w_routeAnswerSideEffect _ _ h
@@ -335,31 +335,31 @@ theorem w_sendBuiltAnswer (s : St) (a : AMsg) (t : Bool) (h : WInv (s)) : WInv (
     exact w_sendMessage _ _ _ _ (w_routeAnswer _ _ _ _ hr h)
 
 
-theorem w_appRecvStep (infoOf : AMsg → MsgInfo) (ai mx : Nat) (s : St) (m : AMsg) (h : WInv (s)) : WInv (appRecvStep infoOf ai mx s m) := by
+theorem w_appRecvStep (infoOf : AMsg → MsgInfo) (ai mx : Nat) (s : St) (m : AMsg) (h : WdInv (s)) : WdInv (appRecvStep infoOf ai mx s m) := by
   unfold appRecvStep
   repeat (first | w_hyp | w_triv | w_lit | split | dsimp only | with_reducible apply w_emit | with_reducible apply w_sendBuiltAnswer | with_reducible apply w_setCrashed)
 
-theorem w_pumpAppRecv (infoOf : AMsg → MsgInfo) (s : St) (ai : Nat) (h : WInv (s)) : WInv (pumpAppRecv infoOf s ai) := by
+theorem w_pumpAppRecv (infoOf : AMsg → MsgInfo) (s : St) (ai : Nat) (h : WdInv (s)) : WdInv (pumpAppRecv infoOf s ai) := by
   unfold pumpAppRecv
   repeat (first | w_hyp | w_triv | w_lit | split | exact w_foldl _ (fun s a hs => w_appRecvStep infoOf ai _ s a hs) _ _ h)
 
-theorem w_appRespStep (ai : Nat) (s : St) (m : AMsg) (h : WInv (s)) : WInv (appRespStep ai s m) := by
+theorem w_appRespStep (ai : Nat) (s : St) (m : AMsg) (h : WdInv (s)) : WdInv (appRespStep ai s m) := by
   unfold appRespStep
   repeat (first | w_hyp | w_triv | w_lit | split | dsimp only | with_reducible apply w_emit | with_reducible apply w_sendBuiltAnswer | with_reducible apply w_setCrashed)
 
-theorem w_appRespNones (ai : Nat) (s : St) (h : WInv (s)) : WInv (appRespNones ai s) := by
+theorem w_appRespNones (ai : Nat) (s : St) (h : WdInv (s)) : WdInv (appRespNones ai s) := by
   unfold appRespNones
   repeat (first | w_hyp | w_triv | w_lit | split | with_reducible apply w_modTApp)
 
-theorem w_pumpAppResp (s : St) (ai : Nat) (h : WInv (s)) : WInv (pumpAppResp s ai) := by
+theorem w_pumpAppResp (s : St) (ai : Nat) (h : WdInv (s)) : WdInv (pumpAppResp s ai) := by
   unfold pumpAppResp
   repeat (first | w_hyp | w_triv | w_lit | split | (apply w_appRespNones; exact w_foldl _ (fun s a hs => w_appRespStep ai s a hs) _ _ h))
 
-theorem w_runHandler (infoOf : AMsg → MsgInfo) (s : St) (k : Nat) (h : WInv (s)) : WInv (runHandler infoOf s k) := by
+theorem w_runHandler (infoOf : AMsg → MsgInfo) (s : St) (k : Nat) (h : WdInv (s)) : WdInv (runHandler infoOf s k) := by
   unfold runHandler
   repeat (first | w_hyp | w_triv | w_lit | split | dsimp only | with_reducible apply w_modTApp | with_reducible apply w_emit )
 
-theorem w_appSendAnswer (s : St) (ai : Nat) (req : AMsg) (info : MsgInfo) (rc : Option Nat) (h : WInv (s)) : WInv (appSendAnswer s ai req info rc) := by
+theorem w_appSendAnswer (s : St) (ai : Nat) (req : AMsg) (info : MsgInfo) (rc : Option Nat) (h : WdInv (s)) : WdInv (appSendAnswer s ai req info rc) := by
   unfold appSendAnswer
   dsimp only
   split
@@ -368,14 +368,14 @@ theorem w_appSendAnswer (s : St) (ai : Nat) (req : AMsg) (info : MsgInfo) (rc : 
     split <;> exact w_emit _ _ (w_sendMessage _ _ _ _ (w_routeAnswer _ _ _ _ hr h))
 
 theorem w_routeRequest (s s' : St) (ai : Nat) (m m' : AMsg) (info : MsgInfo) (cid : Nat)
-    (hr : routeRequest s ai m info = .ok (s', cid, m')) (h : WInv (s)) : WInv (s') := by
+    (hr : routeRequest s ai m info = .ok (s', cid, m')) (h : WdInv (s)) : WdInv (s') := by
   unfold routeRequest at hr
   simp only [] at hr
   repeat (first | contradiction | split at hr)
   all_goals (injection hr with hr; injection hr with h1 h2; subst h1)
   all_goals repeat (first | w_hyp | w_triv | w_lit | w_lit | split | dsimp only | with_reducible apply w_modConn _ _ _ (by tamew))
 
-theorem w_appSendRequestBegin (s : St) (ai : Nat) (m : AMsg) (info : MsgInfo) (h : WInv (s)) : WInv ((appSendRequestBegin s ai m info).1) := by
+theorem w_appSendRequestBegin (s : St) (ai : Nat) (m : AMsg) (info : MsgInfo) (h : WdInv (s)) : WdInv ((appSendRequestBegin s ai m info).1) := by
   unfold appSendRequestBegin
   dsimp only
   split
@@ -386,9 +386,9 @@ theorem w_appSendRequestBegin (s : St) (ai : Nat) (m : AMsg) (info : MsgInfo) (h
     refine w_routeRequest _ _ _ _ _ _ _ hr ?_
     split <;> exact w_of_conns rfl rfl h
 
-theorem w_appSendRequestEnd (s : St) (ai : Nat) (hbh : Nat) (h : WInv (s)) : WInv ((appSendRequestEnd s ai hbh).1) := h
+theorem w_appSendRequestEnd (s : St) (ai : Nat) (hbh : Nat) (h : WdInv (s)) : WdInv ((appSendRequestEnd s ai hbh).1) := h
 
-theorem w_stopBegin (s : St) (f : Bool) (h : WInv (s)) : WInv (stopBegin s f) := by
+theorem w_stopBegin (s : St) (f : Bool) (h : WdInv (s)) : WdInv (stopBegin s f) := by
   unfold stopBegin
   dsimp only
   split
@@ -398,7 +398,7 @@ theorem w_stopBegin (s : St) (f : Bool) (h : WInv (s)) : WInv (stopBegin s f) :=
       repeat (first | w_hyp | w_triv | w_lit | split | with_reducible apply w_sendDpr)
     · exact w_of_conns rfl rfl h
 
-theorem w_stopFinal (s : St) (h : WInv (s)) : WInv (stopFinal s) := by
+theorem w_stopFinal (s : St) (h : WdInv (s)) : WdInv (stopFinal s) := by
   unfold stopFinal
   apply w_foldl
   · intro s a hs
